@@ -1,4 +1,5 @@
 CONSTANTS
+  MinItems = 0
   NC = 2
   L = 3
   MaxItems = 3
